@@ -3,6 +3,7 @@ import PQ.Model.Bitpack
 import PQ.Model.Rle
 import PQ.Model.Text
 import PQ.Model.GenLevels
+import PQ.Model.GapFile
 /-!
 Line-protocol driver: one operation per line on stdin, one canonical line out.
 Unknown operation → `bad-op` (never a default).
@@ -156,6 +157,11 @@ def step (line : String) : String :=
              s!"0:{p.uncompressedLen}:{p.compressedLen}:{p.numValues};0;3;3;{showStatsFields p.stats}"
            if hs.isEmpty then "-" else ",".intercalate hs)
     | _, _ => "bad-op"
+  | ["gapfile", pad, file] =>
+    -- the same file with `pad` filler bytes before every row group and the footer's offsets shifted
+    match pad.toNat?, gapFile (pad.toNat?.getD 0) (unhex file) with
+    | some _, some f => "ok " ++ toHex f
+    | _, _ => "err"
   | ["gen-levels", rts] =>
     -- the generator's level arithmetic on one chain (r = required, o = optional, m = repeated)
     let l := (if rts = "-" then [] else rts.toList).mapM fun c =>
